@@ -114,10 +114,11 @@ func (am *YAMLAccountManager) Update(account hotline.Account, newLogin string) e
 			return fmt.Errorf("error renaming account file: %w", err)
 		}
 
+		oldLogin := account.Login
 		account.Login = newLogin
 		am.accounts[newLogin] = account
 
-		delete(am.accounts, account.Login)
+		delete(am.accounts, oldLogin)
 	}
 
 	out, err := yaml.Marshal(&account)
